@@ -23,10 +23,23 @@ impl SourceFileMap {
         self.file_line_ranges.push(SourceLineRanges::default());
     }
 
-    pub(crate) fn add(&mut self, basic_line: u64, ranges: SourceLineRanges) {
+    /// Adds the ranges for the next file line.
+    ///
+    /// `defines_basic_line` must only be true if the file line actually
+    /// (re)defined the BASIC line in the program. Otherwise, locations in the
+    /// BASIC line that really is in the program would be mapped to a file line
+    /// that has nothing to do with it (and has no matching token ranges).
+    pub(crate) fn add(
+        &mut self,
+        basic_line: u64,
+        ranges: SourceLineRanges,
+        defines_basic_line: bool,
+    ) {
         let file_line_number = self.file_line_ranges.len();
-        self.basic_lines_to_file_lines
-            .insert(basic_line, file_line_number);
+        if defines_basic_line {
+            self.basic_lines_to_file_lines
+                .insert(basic_line, file_line_number);
+        }
         self.file_line_ranges.push(ranges);
     }
 
